@@ -34,55 +34,61 @@ Signer(alg) == [kind |-> "sym", name |-> "k1", alg |-> alg, fault |-> ""]
 
 \* in-memory protected bucket for a header alg choice ("absent" = no alg entry)
 PBucket(lt, hv) == IF hv.t = "absent" THEN <<Kid>> ELSE <<<<Lbl1(lt), hv>>, Kid>>
-Msg(kind, P, sig) ==
-  CASE kind \in {"sign1", "sign1u"} -> [P |-> P, U |-> <<>>, payload |-> Pay, sig |-> sig]
-    [] kind \in {"sig", "csig"}     -> [P |-> P, U |-> <<>>, sig |-> sig]
+\* UA: the unprotected bucket may name the key's algorithm (it is not signed and must not be consulted)
+UAlg(alg) == <<<<Lbl1("int64"), [t |-> "alg", neg |-> alg < 0, a |-> AlgArg(alg)]>>>>
+MsgU(kind, P, sig, U) ==
+  CASE kind \in {"sign1", "sign1u"} -> [P |-> P, U |-> U, payload |-> Pay, sig |-> sig]
+    [] kind \in {"sig", "csig"}     -> [P |-> P, U |-> U, sig |-> sig]
+Msg(kind, P, sig) == MsgU(kind, P, sig, <<>>)
 ParentMsg == [P |-> <<>>, U |-> <<>>, payload |-> Pay, sig |-> Dummy]
 
 \* programs
-SignProg(struct, P, alg, x) ==
+SignProgU(struct, P, alg, x, U) ==
   CASE struct \in {"sign1", "sign1u"} ->
-         << [op |-> "new", obj |-> "m", kind |-> struct, m |-> Msg(struct, P, <<>>)],
+         << [op |-> "new", obj |-> "m", kind |-> struct, m |-> MsgU(struct, P, <<>>, U)],
             [op |-> "sign", obj |-> "m", signers |-> <<Signer(alg)>>] @@ x,
             [op |-> "marshal", obj |-> "m", buf |-> "b"] >>
     [] struct = "sig" ->
-         << [op |-> "new", obj |-> "m", kind |-> "sig", m |-> Msg("sig", P, <<>>)],
+         << [op |-> "new", obj |-> "m", kind |-> "sig", m |-> MsgU("sig", P, <<>>, U)],
             [op |-> "sign", obj |-> "m", signers |-> <<Signer(alg)>>, bodyprot |-> BodyProt, payload |-> Pay] @@ x,
             [op |-> "marshal", obj |-> "m", buf |-> "b"] >>
     [] struct = "csig" ->
-         << [op |-> "new", obj |-> "m", kind |-> "csig", m |-> Msg("csig", P, <<>>)],
+         << [op |-> "new", obj |-> "m", kind |-> "csig", m |-> MsgU("csig", P, <<>>, U)],
             [op |-> "new", obj |-> "par", kind |-> "sign1", m |-> ParentMsg],
             [op |-> "countersign", obj |-> "m", parent |-> "par", form |-> "ptr", signers |-> <<Signer(alg)>>] @@ x,
             [op |-> "marshal", obj |-> "m", buf |-> "b"] >>
     [] struct \in {"sign1helper", "sign1untaggedhelper"} ->
-         << [op |-> struct, obj |-> "", m |-> Msg("sign1", P, <<>>), signers |-> <<Signer(alg)>>, buf |-> "b"] @@ x >>
-VerifyProg(struct, P, alg, x) ==
+         << [op |-> struct, obj |-> "", m |-> MsgU("sign1", P, <<>>, U), signers |-> <<Signer(alg)>>, buf |-> "b"] @@ x >>
+VerifyProgU(struct, P, alg, x, U) ==
   LET v == [kind |-> "sym", name |-> "k1", alg |-> alg, fault |-> "accept"] IN
   CASE struct \in {"sign1", "sign1u"} ->
-         << [op |-> "new", obj |-> "m", kind |-> struct, m |-> Msg(struct, P, Dummy)],
+         << [op |-> "new", obj |-> "m", kind |-> struct, m |-> MsgU(struct, P, Dummy, U)],
             [op |-> "verify", obj |-> "m", verifiers |-> <<v>>] @@ x >>
     [] struct = "sig" ->
-         << [op |-> "new", obj |-> "m", kind |-> "sig", m |-> Msg("sig", P, Dummy)],
+         << [op |-> "new", obj |-> "m", kind |-> "sig", m |-> MsgU("sig", P, Dummy, U)],
             [op |-> "verify", obj |-> "m", verifiers |-> <<v>>, bodyprot |-> BodyProt, payload |-> Pay] @@ x >>
     [] struct = "csig" ->
-         << [op |-> "new", obj |-> "m", kind |-> "csig", m |-> Msg("csig", P, Dummy)],
+         << [op |-> "new", obj |-> "m", kind |-> "csig", m |-> MsgU("csig", P, Dummy, U)],
             [op |-> "new", obj |-> "par", kind |-> "sign1", m |-> ParentMsg],
             [op |-> "verifycs", obj |-> "m", parent |-> "par", form |-> "val", verifiers |-> <<v>>] @@ x >>
 \* decoded message: the wire image carries the alg variant; verification consults what was decoded
-DecVerifyProg(struct, P, alg, x) ==
+DecVerifyProgU(struct, P, alg, x, U) ==
   LET v == [kind |-> "sym", name |-> "k1", alg |-> alg, fault |-> "accept"]
       kd == IF struct = "csig" THEN "csig" ELSE struct IN
   CASE struct \in {"sign1", "sign1u"} ->
-         << [op |-> "unmarshal", obj |-> "m", kind |-> struct, buf |-> "w", bytes |-> ImageOf(struct, Msg(struct, P, Dummy))],
+         << [op |-> "unmarshal", obj |-> "m", kind |-> struct, buf |-> "w", bytes |-> ImageOf(struct, MsgU(struct, P, Dummy, U))],
             [op |-> "verify", obj |-> "m", verifiers |-> <<v>>] @@ x >>
     [] struct = "sig" ->
-         << [op |-> "unmarshal", obj |-> "m", kind |-> "sig", buf |-> "w", bytes |-> ImageOf("sig", Msg("sig", P, Dummy))],
+         << [op |-> "unmarshal", obj |-> "m", kind |-> "sig", buf |-> "w", bytes |-> ImageOf("sig", MsgU("sig", P, Dummy, U))],
             [op |-> "verify", obj |-> "m", verifiers |-> <<v>>, bodyprot |-> BodyProt, payload |-> Pay] @@ x >>
     [] struct = "csig" ->
-         << [op |-> "unmarshal", obj |-> "m", kind |-> "csig", buf |-> "w", bytes |-> ImageOf("csig", Msg("csig", P, Dummy))],
+         << [op |-> "unmarshal", obj |-> "m", kind |-> "csig", buf |-> "w", bytes |-> ImageOf("csig", MsgU("csig", P, Dummy, U))],
             [op |-> "new", obj |-> "par", kind |-> "sign1", m |-> ParentMsg],
             [op |-> "verifycs", obj |-> "m", parent |-> "par", form |-> "ptr", verifiers |-> <<v>>] @@ x >>
 
+SignProg(struct, P, alg, x) == SignProgU(struct, P, alg, x, <<>>)
+VerifyProg(struct, P, alg, x) == VerifyProgU(struct, P, alg, x, <<>>)
+DecVerifyProg(struct, P, alg, x) == DecVerifyProgU(struct, P, alg, x, <<>>)
 \* user-supplied raw protected bytes that carry no alg: h'a0' (41 a0), {4: h'31'}, the same with a 2-byte length prefix
 RawNoAlg == { <<65, 160>>, <<68, 161, 4, 65, 49>>, <<88, 4, 161, 4, 65, 49>> }
 RawProg(struct, raw, nilmap, alg, x) ==
@@ -102,8 +108,9 @@ PickHdr == st.phase = 1 /\ \E hv \in HdrAlgs \cup {Absent} : \E lt \in (IF hv.t 
                  (st.flow \in {"decverify", "poisoned"} => lt = "int64")
                  /\ (st.flow = "poisoned" => hv.t \in {"absent", "alg"})
                  /\ st' = [phase |-> 2, struct |-> st.struct, flow |-> st.flow, P |-> PBucket(lt, hv)]
-PickRest == st.phase = 2 /\ \E alg \in SignerAlgs : \E x \in Exts :
-                 st' = [phase |-> 3, struct |-> st.struct, flow |-> st.flow, P |-> st.P, alg |-> alg, x |-> x]
+PickRest == st.phase = 2 /\ \E alg \in SignerAlgs : \E x \in Exts : \E ua \in BOOLEAN :
+                 (ua => st.flow # "poisoned")
+                 /\ st' = [phase |-> 3, struct |-> st.struct, flow |-> st.flow, P |-> st.P, alg |-> alg, x |-> x, ua |-> ua]
 \* the same wire image was decoded before into another variable whose parsed map the caller then edited to the verifier's
 \* algorithm: the message decoded afterwards must be judged by its own bytes
 PoisonSteps(struct, P, alg) ==
@@ -115,11 +122,11 @@ Next == PickStruct \/ PickHdr \/ PickRest \/ PickRaw
 Spec == Init /\ [][Next]_st
 
 Prog == CASE st.flow = "sign" /\ "raw" \in DOMAIN st -> RawProg(st.struct, st.raw, st.nilmap, st.alg, st.x)
-          [] st.flow = "sign" -> SignProg(st.struct, st.P, st.alg, st.x)
-          [] st.flow = "verify" -> VerifyProg(st.struct, st.P, st.alg, st.x)
-          [] st.flow = "decverify" -> DecVerifyProg(st.struct, st.P, st.alg, st.x)
+          [] st.flow = "sign" -> SignProgU(st.struct, st.P, st.alg, st.x, IF st.ua THEN UAlg(st.alg) ELSE <<>>)
+          [] st.flow = "verify" -> VerifyProgU(st.struct, st.P, st.alg, st.x, IF st.ua THEN UAlg(st.alg) ELSE <<>>)
+          [] st.flow = "decverify" -> DecVerifyProgU(st.struct, st.P, st.alg, st.x, IF st.ua THEN UAlg(st.alg) ELSE <<>>)
           [] st.flow = "poisoned" -> PoisonSteps(st.struct, st.P, st.alg) \o DecVerifyProg(st.struct, st.P, st.alg, st.x)
 Emit == st.phase # 3 \/
   PrintT(<<"CASE", ToJson([struct |-> st.struct, flow |-> (IF st.flow = "poisoned" THEN "decverify" ELSE st.flow), pre |-> (IF st.flow = "poisoned" THEN 2 ELSE 0),
-                           P |-> st.P, alg |-> st.alg, ext |-> st.x.ext, steps |-> Prog])>>)
+                           P |-> st.P, ua |-> ("ua" \in DOMAIN st /\ st.ua), alg |-> st.alg, ext |-> st.x.ext, steps |-> Prog])>>)
 =============================================================================
